@@ -137,6 +137,8 @@ class SSHChannel(Generic[AnyStr], SSHPacketHandler):
         self._recv_window = window
         self._recv_pktsize = max_pktsize
         self._recv_paused: Union[bool, str] = 'starting'
+        self._recv_eof_pending = False
+        self._send_eof_pending = False
         self._recv_buf: List[Tuple[bytes, DataType]] = []
         self._recv_buf_len = 0
 
@@ -342,6 +344,10 @@ class SSHChannel(Generic[AnyStr], SSHPacketHandler):
                 self.send_packet(MSG_CHANNEL_EOF)
                 self._send_state = 'eof'
             elif self._send_state == 'close_pending':
+                if self._send_eof_pending:
+                    self.send_packet(MSG_CHANNEL_EOF)
+                    self._send_eof_pending = False
+
                 self._close_send()
 
     def _flush_recv_buf(self, exc: Optional[Exception] = None) -> None:
@@ -361,8 +367,11 @@ class SSHChannel(Generic[AnyStr], SSHPacketHandler):
                 except UnicodeDecodeError as unicode_exc:
                     raise ProtocolError(str(unicode_exc)) from None
 
-            if self._recv_state == 'eof_pending':
-                self._recv_state = 'eof'
+            if self._recv_state == 'eof_pending' or self._recv_eof_pending:
+                if self._recv_state == 'eof_pending':
+                    self._recv_state = 'eof'
+
+                self._recv_eof_pending = False
 
                 assert self._session is not None
 
@@ -676,6 +685,12 @@ class SSHChannel(Generic[AnyStr], SSHPacketHandler):
 
         self._close_send()
 
+        # An end of file which could not be delivered yet (reading is
+        # paused or hasn't started) still has to be reported before the
+        # close is
+        if self._recv_state == 'eof_pending':
+            self._recv_eof_pending = True
+
         self._recv_state = 'close_pending'
         self._flush_recv_buf()
 
@@ -814,7 +829,9 @@ class SSHChannel(Generic[AnyStr], SSHPacketHandler):
         self.logger.info('Closing channel')
 
         if self._send_state not in {'close_pending', 'closed'}:
-            # Send a close only after sending unsent data
+            # Send a close only after sending unsent data, and after an
+            # end of file which is still waiting behind that data
+            self._send_eof_pending = self._send_state == 'eof_pending'
             self._send_state = 'close_pending'
             self._flush_send_buf()
 
